@@ -124,6 +124,17 @@ def replies {R : Type} (max inc : Nat) (encLen : Id → R → Nat) (ms : List Me
   | .errorBatch es => [es]
   | .items its b => (runCalls max inc encLen its b calls).filterMap id
 
+/-! ### `receive_message` on a list: request batch or response batch?
+
+    `all(isinstance(payload, dict) and ('result' in payload or 'error' in payload) ...)`:
+    only a list **all** of whose members look like responses goes to `_receive_response_batch`;
+    everything else - in particular a list mixing response-looking members with requests - is a
+    request batch, whose response-looking members are then invalid members or (if they also
+    carry a method) requests. -/
+
+/-- `respLike l[k]` = member `k` is an object carrying "result" or "error" -/
+def isRequestBatch (respLike : List Bool) : Bool := !(respLike.all id)
+
 /-! ### several batches in flight on one connection
 
     Each call of `_receive_request_batch` creates its own closure variables, so a connection
